@@ -72,6 +72,19 @@ def check(run):
         sh = list(calls)
         rng.shuffle(sh)
         orders.append(("shuffled" if n == 0 else "shuffled%d" % (n + 1), sh, 1))
+    # every ordered PAIR of keys of one kind back to back in one locale: the second call must not be served by what the first one
+    # left behind (a memo of "the last formatter used" keyed by less than the options)
+    by_kind = {}
+    for k in sorted(CATALOGUE):
+        by_kind.setdefault(meaning[k]["name"], []).append(k)
+    pair_calls = []
+    for l in (locales if quick else locales[:6]):
+        for kind, ks in sorted(by_kind.items()):
+            for k1 in ks:
+                for k2 in ks:
+                    if k1 != k2:
+                        pair_calls += [{"key": k, "locale": l, "kind": kind, "args": meaning[k]["args"]} for k in (k1, k2)]
+    orders.append(("pairs", pair_calls, 1))
     orders.append(("threads8", sh, 8))
     if not quick:
         orders.append(("threads16", list(reversed(sh)), 16))
